@@ -15,7 +15,7 @@ MANIFEST = {
           'reference refuses it (linearizability), a refusal must raise exactly one overflow signal and leave '
           'contents and metric count unchanged; sequential histories to depth 6 (thorough 8) by BFS.',
   'note': 'Hard limit read as ceil(1.05*MAX_CACHE_SIZE) under flow control (DESIGN.md I1). The derived limits '
-          'are configured with the factors found in carbon/conf.py, the oracle uses the property\'s constants.',
+          'are configured with the factors found in carbon/conf.py, the oracle uses the property\'s constants. The limits are obtained from the real CarbonCacheOptions.postOptions() on generated carbon.conf files incl. [cache:<instance>] overrides; one series of the sequential search is tagged and sent in a non-canonical spelling.',
 }
 
 STRATEGIES = ('sorted', 'max', 'naive', 'timesorted', 'bucketmax', 'random')
